@@ -48,33 +48,143 @@ FAULT_BASES = {
     "AttributeError": type("InjectedAttributeError",
                            (InjectedFault, AttributeError), {}),
 }
+# further builtin classes a user function realistically raises; only used by
+# the second ("shape") run of a fault point, so that the first run of every
+# fault point keeps the class drawn for the case
+MORE_BASES = {
+    "AssertionError": _mix("AssertionError", AssertionError),
+    "LookupError": _mix("LookupError", LookupError),
+    "OverflowError": _mix("OverflowError", OverflowError),
+    "OSError": _mix("OSError", OSError),
+    "UnicodeError": _mix("UnicodeError", UnicodeError),
+    "ImportError": _mix("ImportError", ImportError),
+    "EOFError": _mix("EOFError", EOFError),
+}
+ALL_BASES = {**FAULT_BASES, **MORE_BASES}
+
+# ------------------------------------------------------------------ shapes
+# HOW the exception object is made.  "message" is what fault injectors usually
+# do (one str argument).  Python code raises many other shapes: a bare
+# ``assert cond`` / ``raise ValueError`` / ``raise KeyError()`` carry no
+# argument at all, ``raise MyError(code, detail)`` several, ``KeyError(7)`` /
+# ``IndexError((0, 1))`` a non-string one, a user-defined class may take
+# keyword-only arguments (args == ()), messages contain quotes / braces / %
+# / newlines, exceptions are chained (raise .. from ..), or come out of a
+# nested ``other_schema.validate(...)`` inside the callback.
+MARKUP = 'say "{0}" {x!r} %s %(y)d \\ \'q\'\n\tline2 \u00e9\u4e2d {{}}'
+_KWONLY = {}
+
+
+def _kwonly(cls):
+    """subclass of cls whose constructor takes one keyword-only argument and
+    passes nothing on (args == ()), with its own __str__."""
+    if cls not in _KWONLY:
+        def __init__(self, *, code):
+            self.code = code
+
+        def __str__(self):
+            return f"user error code={self.code}"
+        _KWONLY[cls] = type(cls.__name__ + "KwOnly", (cls,),
+                            {"__init__": __init__, "__str__": __str__})
+    return _KWONLY[cls]
+
+
+SHAPES = {
+    "message": lambda cls, text: cls(text),
+    "no_args": lambda cls, text: cls(),
+    "two_args": lambda cls, text: cls(text, 7),
+    "three_args": lambda cls, text: cls(2, text, None),
+    "int_arg": lambda cls, text: cls(7),
+    "zero_arg": lambda cls, text: cls(0),
+    "none_arg": lambda cls, text: cls(None),
+    "tuple_arg": lambda cls, text: cls(("a", 1)),
+    "empty_tuple_arg": lambda cls, text: cls(()),
+    "bytes_arg": lambda cls, text: cls(b"\xff\x00raw"),
+    "exception_arg": lambda cls, text: cls(KeyError("inner")),
+    "empty_message": lambda cls, text: cls(""),
+    "markup_message": lambda cls, text: cls(MARKUP),
+    "kwonly_init": lambda cls, text: _kwonly(cls)(code=3),
+}
+# shapes that are produced by running real statements (the class is not ours;
+# the object is still captured, so identity tests keep working)
+NATURAL_SHAPES = ("bare_assert", "bare_raise_class", "chained", "in_handler",
+                  "nested_validate", "nested_validate_lazy")
+ALL_SHAPES = tuple(SHAPES) + NATURAL_SHAPES
+# shapes whose exception carries no argument (exc.args == ())
+ARGLESS_SHAPES = ("no_args", "kwonly_init", "bare_assert", "bare_raise_class")
+NESTED_SHAPES = ("nested_validate", "nested_validate_lazy")
+
+
+def _nested_validate(lazy, backend="pandas"):
+    """what a callback that validates something with another schema (of the
+    same backend) raises: SchemaError, or SchemaErrors when lazy"""
+    if backend == "polars":
+        import pandera.polars as pa
+        import polars as pl
+        data = pl.DataFrame({"inner_col": [1, -1]})
+    else:
+        import pandera as pa
+        data = pd.DataFrame({"inner_col": [1, -1]})
+    inner = pa.DataFrameSchema({"inner_col": pa.Column(int, pa.Check.gt(0))})
+    inner.validate(data, lazy=lazy)
+    raise AssertionError("inner schema accepted invalid data")
 
 
 class Faults:
-    def __init__(self, target=None, base="Exception"):
+    def __init__(self, target=None, base="Exception", shape="message",
+                 backend="pandas"):
+        self.backend = backend
         self.count = 0
         self.by_kind = Counter()
         self.target = target
         self.base = base
+        self.shape = shape
         self.fired = None        # (kind, exception object)
+        self.fired_meta = {}     # meta of the callback the fault fired in
         self.log = []            # kind per invocation (bounded)
         self.mutations = 0       # in-place edits made by callbacks so far
         self.mutated_by = Counter()
 
-    def call(self, kind):
+    def _raise(self, kind):
+        cls = ALL_BASES[self.base]
+        text = f"injected fault at invocation {self.count} ({kind})"
+        shape = self.shape
+        try:
+            if shape in SHAPES:
+                raise SHAPES[shape](cls, text)
+            if shape == "bare_assert":
+                assert self.count < 0
+            elif shape == "bare_raise_class":
+                raise cls            # ``raise ValueError``: python instantiates
+            elif shape == "chained":
+                try:
+                    {}[kind]
+                except KeyError as inner:
+                    raise cls(text) from inner
+            elif shape == "in_handler":
+                try:
+                    int("x")
+                except ValueError:
+                    raise cls(text)  # implicit __context__  # noqa: B904
+            elif shape in NESTED_SHAPES:
+                _nested_validate(shape.endswith("lazy"), self.backend)
+            raise RuntimeError(f"unknown fault shape {shape}")
+        except BaseException as exc:
+            self.fired = (kind, exc)
+            raise
+
+    def call(self, kind, meta=None):
         self.count += 1
         self.by_kind[kind] += 1
         if len(self.log) < 256:
             self.log.append(kind)
         if self.target is not None and self.count == self.target:
-            exc = FAULT_BASES[self.base](
-                f"injected fault at invocation {self.count} ({kind})")
-            self.fired = (kind, exc)
-            raise exc
+            self.fired_meta = dict(meta or {})
+            self._raise(kind)
 
-    def wrap(self, kind, fn, name=None):
+    def wrap(self, kind, fn, name=None, meta=None):
         def user_callback(*a, **k):
-            self.call(kind)
+            self.call(kind, meta)
             return fn(*a, **k)
         user_callback.__name__ = name or f"user_{kind}"
         user_callback.__qualname__ = user_callback.__name__
